@@ -36,6 +36,9 @@ def reset_environment():
     if config.BACKEND != "numpy":
         config.set_backend("numpy")
     config.DTYPE = "float64"
+    from . import refmodel
+
+    refmodel.set_single(False)
     config.set_show_progress(False)
     np.random.seed(20240229)
 
@@ -306,10 +309,26 @@ def set_backend(name):
     """'numpy' | 'torch' | 'numpy:float32' | 'torch:float32' (run configuration: numeric backend x dtype)."""
     from pgmpy import config
 
+    from . import refmodel
+
     backend, _, dtype = name.partition(":")
+    refmodel.set_single(dtype == "float32")
     if backend == "torch":
         import torch
 
         config.set_backend("torch", device="cpu", dtype=getattr(torch, dtype) if dtype else None)
     else:
         config.set_backend("numpy", dtype=dtype or None)
+
+
+BACKENDS = ["numpy", "numpy", "numpy", "numpy", "torch", "torch", "numpy:float32", "torch:float32"]
+
+
+def effective_backend(name, values):
+    """float32 only for models whose positive entries lie within [1e-3, 1e3] (single precision cannot represent products of
+    many tiny potentials); otherwise the same backend in double precision."""
+    if name.endswith(":float32"):
+        pos = [abs(x) for x in values if x]
+        if pos and (min(pos) < 1e-3 or max(pos) > 1e3):
+            return name.split(":")[0]
+    return name
